@@ -1,10 +1,10 @@
 SPECIFICATION Spec
 CONSTANTS
   Family = "pair"
-  Targets = {"LAMMPS","DLPOLY","GULP","excel"}
-  MaxSp = 3
-  MaxPots = 2
-  NRs = {3,4,5,8,9,12}
+  Targets = {"LAMMPS","DLPOLY","GULP"}
+  MaxSp = 2
+  MaxPots = 1
+  NRs = {2328, 10000}
   NRhos = {0}
   Faults = FALSE
   FlushFixed = TRUE
